@@ -1112,7 +1112,7 @@ def run(ctx):
     ncoll = 0
     for c in dict.values(tmod.classes):
         ln, gi, it = prog.lookup(c, "__len__"), prog.lookup(c, "__getitem__"), prog.lookup(c, "__iter__")   # own or inherited
-        if ln is None or (gi is None and it is None) or not c.name.endswith("Collection"):
+        if ln is None or (gi is None and it is None):
             continue
         ncoll += 1
         key = "%s.__len__" % c.name
